@@ -109,6 +109,20 @@ def Payload.kindName : Payload → String
   | .directive .. => "directive" | .directiveList .. => "directiveList" | .value .. => "value"
   | .variable .. => "variable"
 
+/-- `kind@start` of the node an event is about (`directiveList@<number of directives>`): the
+    observation compared with the order in which the real walker calls observers -/
+def Event.tag (e : Event) : String :=
+  e.p.kindName ++ "@" ++ toString (match e.p with
+    | .operation op _ => op.pos.start
+    | .field f _ _ => f.pos.start
+    | .fragment f _ => f.pos.start
+    | .inlineFragment f _ => f.pos.start
+    | .fragmentSpread f _ _ => f.pos.start
+    | .directive d _ _ _ => d.pos.start
+    | .directiveList ds => ds.length
+    | .value v _ _ => v.pos.start
+    | .variable v _ => v.pos.start)
+
 /- ---------------- canonical link dump ---------------- -/
 
 def optDefName : Option Definition → String
